@@ -106,7 +106,7 @@ def check_step(w, bad):
     o = w.o
     if not isinstance(o.status, FOrdStatus):
         bad("status-not-enum", f"order.status is {o.status!r} ({type(o.status).__name__}), not a member of FOrdStatus")
-    for name, pred, build in (("cancel", "can_cancel", lambda c: c.cancel_req()), ("replace", "can_replace", lambda c: c.replace_req(o.price + 1.0, float("nan")))):
+    for name, pred, build in (("cancel", "can_cancel", lambda c: c.cancel_req()), ("replace", "can_replace", lambda c: c.replace_req(o.price * 1.5 + 1.0, float("nan")))):
         try:
             can = getattr(o, pred)()
         except Exception as e:
@@ -167,13 +167,13 @@ def apply(w, act, bad, frac=0.5, newpx=None, newqty=None):
             else:
                 how = act[1]
                 if newpx is not None and newpx == o.price:
-                    newpx = o.price + 0.5  # replace_req documents FIXError for "no change": not a defect
+                    newpx = o.price * 1.5 + 0.5  # replace_req documents FIXError for "no change": not a defect
                 if newqty is not None and (newqty == o.qty or (how == "qty-down" and newqty > o.qty)):
-                    newqty = o.qty + 5.0 if how == "qty-up" else o.qty / 2.0
+                    newqty = o.qty * 2.0 + 5.0 if how == "qty-up" else o.qty / 2.0
                 if how == "px":
-                    m = o.replace_req(newpx if newpx is not None else o.price + 1.0, float("nan"))
+                    m = o.replace_req(newpx if newpx is not None else o.price * 1.5 + 1.0, float("nan"))
                 elif how == "qty-up":
-                    m = o.replace_req(float("nan"), newqty if newqty is not None else o.qty + 5.0)
+                    m = o.replace_req(float("nan"), newqty if newqty is not None else o.qty * 2.0 + 5.0)
                 else:
                     m = o.replace_req(float("nan"), newqty if newqty is not None else o.qty / 2.0)
             if m[FTag.ClOrdID] in w.sent_ids:
@@ -283,8 +283,10 @@ def dfs(acc, depth, first):
 
 
 ROOTS = ["ord", "a-", "a--", "a--b", "a--1x", "--", "x--y--z", "1", "my order", "ORD--7-", "a---", "é"]
-step = st.tuples(st.integers(0, 400), st.sampled_from([0.1, 0.25, 0.5, 0.75, 0.999, 1 / 3]), st.sampled_from([1.0, 55.5, 100.0, 250.25]), st.sampled_from([1.0, 3.0, 7.5, 10.0, 20.0, 1000.0]))
-walk = st.tuples(st.sampled_from(ROOTS), st.sampled_from([1.0, 100.0, 0.01, 99.99]), st.sampled_from([1.0, 10.0, 2.5, 1000.0]), st.lists(step, min_size=25, max_size=120))
+step = st.tuples(st.integers(0, 400), st.sampled_from([0.1, 0.25, 0.5, 0.75, 0.999, 1 / 3]), st.sampled_from([1.0, 55.5, 100.0, 250.25, 7.7777777e-05]), st.sampled_from([1.0, 3.0, 7.5, 10.0, 20.0, 1000.0, 2.2222222e-05]))
+# magnitudes whose float repr uses exponent form are in the domain too ("all positive quantities and prices")
+walk = st.tuples(st.sampled_from(ROOTS), st.sampled_from([1.0, 100.0, 0.01, 99.99, 8.75e-05, 1.23456789e-05, 2.5e16]),
+                 st.sampled_from([1.0, 10.0, 2.5, 1000.0, 1.25e-05, 3.3333333e-05, 1.5e16]), st.lists(step, min_size=25, max_size=120))
 
 
 def run_walk(acc, root, price, qty, steps, maxlen):
